@@ -21,6 +21,11 @@ for pid in ids:
         na.append({"property_id": pid, "reason": PENDING_REASON})
         continue
     prop = runner.load_prop(pid)
+    nq = sum(1 for h in prop.HARNESSES if h.tier == "quick")
+    nt = len(prop.HARNESSES)
+    enc = "; ".join(getattr(prop, "ENCODED", []))[:600]
+    outside = "; ".join(getattr(prop, "OUTSIDE", []))[:900]
+    assume = "; ".join(getattr(prop, "ASSUMPTIONS", []))[:900]
     checks.append({
         "property_id": pid,
         "quick_cmd": "./check %s --tier quick" % pid,
@@ -30,12 +35,13 @@ for pid in ids:
         "engine": "kani-cbmc",
         "level_claimed": {
             "category": "model_checking",
-            "text": getattr(prop, "LEVEL_TEXT", "Bounded model checking of the real compiled code (Kani -> CBMC -> CaDiCaL): within the bounds "
-                            "listed in the evidence file every value of the symbolic inputs is covered; nothing is claimed outside them."),
+            "text": getattr(prop, "LEVEL_TEXT", "Bounded model checking of the real compiled code (Kani -> CBMC -> CaDiCaL), %d harness instances in the quick tier, %d in the thorough tier; "
+                            "each instance is one SAT query over a concrete shape with fully symbolic values, with unwinding assertions on. Within the bounds listed in the evidence file "
+                            "every value of the symbolic inputs is covered; nothing is claimed outside them. Functions encoded: %s. Not decided: %s" % (nq, nt, enc, outside)),
             "design_ref": "DESIGN.md section 5 " + pid,
         },
-        "level_note": getattr(prop, "LEVEL_NOTE", "Trusted: Kani's MIR->goto translation, CBMC, CaDiCaL; the contract stubs and assumptions "
-                              "listed in the evidence file; shapes (counts, Some/None patterns) are enumerated, values are symbolic."),
+        "level_note": getattr(prop, "LEVEL_NOTE", "Trusted: Kani's MIR->goto translation, CBMC, CaDiCaL. Shapes (counts, Some/None patterns, which call fails) are enumerated, values are symbolic. "
+                              "Stubs and assumptions: %s" % assume),
         "technique": getattr(prop, "TECHNIQUE", "solver-based bounded symbolic execution of the real code (Kani/CBMC harnesses, SAT)"),
     })
 m = {
